@@ -60,6 +60,13 @@ def to_reference(prog):
                 qseen.append(s[1])
         elif k in ("query", "evidence"):
             continue
+        elif k == "rule_or":
+            # head :- common, (alt1 ; alt2): the two rules it abbreviates (the reference would expand it itself,
+            # which would shift the statement indices that the choices refer to)
+            out.append(["rule", s[1], list(s[2]) + list(s[3])])
+            idx.append(i)
+            out.append(["rule", s[1], list(s[2]) + list(s[4])])
+            idx.append(i)
         else:
             out.append(s)
             idx.append(i)
@@ -78,7 +85,7 @@ def plain_view(prog):
 
 def _heads_of(s):
     k = s[0]
-    if k in ("fact", "dfact", "rule"):
+    if k in ("fact", "dfact", "rule", "rule_or"):
         return [s[1]]
     if k == "pfact":
         return [s[2]]
@@ -175,7 +182,10 @@ def dt_programs(draw, allow_dad=True, allow_rec=False):
         else:
             prog.append(s)
     # 2. fresh decision facts, used in the body of new or existing rules
-    nfresh = draw(st.integers(0 if ndec else 1, 2 if ndec < 4 else 0))
+    lo = 0 if ndec else 1
+    if ndec < 2 and draw(st.integers(0, 3)) != 0:
+        lo = 2 - ndec
+    nfresh = draw(st.integers(lo, 2)) if ndec < 4 else 0
     fresh = []
     if nfresh:
         cands = [FRESH[0], FRESH[1]] if draw(st.booleans()) else [FRESH[2], FRESH[3]]
@@ -227,10 +237,35 @@ def dt_programs(draw, allow_dad=True, allow_rec=False):
             for a in s[1]:
                 if all(t[0] != "v" for t in a[1]) and a not in ucands:
                     ucands.append(a)
+    # ground atoms of predicates that depend on a decision
+    g = gp.pred_graph(plain_view(prog))
+    dec_preds = set()
+    for s in prog:
+        if s[0] in ("dfact", "dad"):
+            for h in _heads_of(s):
+                dec_preds.add((h[0], len(h[1])))
+    dep = set(dec_preds)
+    changed = True
+    while changed:
+        changed = False
+        for v, d in g.items():
+            if v not in dep and any(p in dep for p, _ in d):
+                dep.add(v)
+                changed = True
+    depcands = []
+    for s in prog:
+        for h in _heads_of(s):
+            if (h[0], len(h[1])) in dep:
+                a = [h[0], [t if t[0] != "v" else ["a", draw(st.sampled_from(consts))] for t in h[1]]]
+                if a not in depcands:
+                    depcands.append(a)
     nutil = draw(st.integers(1, 4))
     seen = []
     for _ in range(nutil):
-        a = draw(st.sampled_from(ucands))
+        if depcands and draw(st.integers(0, 3)) != 0:
+            a = draw(st.sampled_from(depcands))
+        else:
+            a = draw(st.sampled_from(ucands))
         neg = draw(st.integers(0, 3)) == 0
         if (a, neg) in seen:
             continue
@@ -249,6 +284,8 @@ def map_programs(draw):
                             allow_rec=False))
     body = [s for s in base if s[0] not in ("query", "evidence")]
     ev = [s for s in base if s[0] == "evidence"]
+    if draw(st.integers(0, 2)) != 0:
+        ev = []
     heads = {}
     for s in body:
         for h in _heads_of(s):
@@ -279,7 +316,17 @@ def map_programs(draw):
         prog.append(["pfact", draw(st.sampled_from(gp.PROB_GRID[1:-1] + ["0.0", "1.0"] if draw(st.integers(0, 9)) == 0
                                                    else gp.PROB_GRID[1:-1])), a])
     targets = []
-    if fresh:
+    pattern = len(fresh) >= 2 and draw(st.integers(0, 3)) == 0
+    if pattern:
+        # 'at least one of the (probably true) facts is false' / 'at least one of the (probably false) facts is true'
+        neg = draw(st.booleans())
+        k0 = len(prog) - len(fresh)
+        for i, a in enumerate(fresh):
+            k = k0 + i
+            prog[k] = ["pfact", draw(st.sampled_from(["0.9", "0.8", "0.75"] if neg else ["0.1", "0.2", "0.25"])), a]
+            prog.append(["rule", ["e1", []], [[neg, a[0], a[1]]]])
+        ev.append(["evidence", ["e1", []], True, draw(st.integers(0, 1))])
+    elif fresh:
         nr = draw(st.integers(1, 3))
         for j in range(nr):
             head = ["e%d" % (draw(st.integers(1, 2))), []]
